@@ -114,6 +114,14 @@ pub fn run(s: &mut Session, ctx: &Ctx) {
     for (p, q, want) in SHARMA.iter() {
         let got = pastel::delta_e::ciede2000(&ops::lab(p[0], p[1], p[2]), &ops::lab(q[0], q[1], q[2]));
         s.count_case(&format!("sharma {:?} {:?}", p, q), true);
+        // a pair whose hues are exactly opposite sits on the standard's discontinuity, where the statement
+        // accepts either branch (one row of the published table, 50/-0.001/2.49 against 50/0.001/-2.49, is such a
+        // pair; the published value is one of the two branches)
+        if (crate::sharma::hue_gap(*p, *q) - 180.0).abs() <= 1e-9 {
+            s.tag("published-table:exactly-opposite-hues-either-branch");
+            s.check(got.is_finite() && got >= 0.0, "ciede2000-finite-nonneg", "delta_e::ciede2000", || format!("{} {}", show(*p), show(*q)), || format!("{:?}", got));
+            continue;
+        }
         s.check((got - want).abs() <= 1e-4, "matches-published-table", "delta_e::ciede2000", || format!("{} {}", show(*p), show(*q)), || format!("got {:?}, published {:?}", got, want));
     }
     for _ in 0..n {
